@@ -156,7 +156,8 @@ def expansion(hist):
             elif kind == 'DETACHED':
                 calls.append(('stream_detach', 1, kwflags(line)))
                 attached = 0
-            elif kind == 'CLOSED':
+            elif kind in ('CLOSED', 'CLOSED-after-FAILED'):
+                # Tor reports a failed stream FAILED and then CLOSED: two reported transitions, two notifications
                 calls.append(('stream_closed', 1, kwflags(line)))
                 attached = 0
             elif kind == 'FAILED':
@@ -221,8 +222,8 @@ def run_listen(hist, p_add, p_rm, via_helpers, rm_mode='global', p_add2=None):
             if rm_mode == 'object' and p_rm is not None and i >= p_rm:
                 # still globally registered: objects that appear after the removal are heard, the muted ones are not
                 obj = ('C', 1) if label.startswith('C1-') else ('S', 1)
-                if label == 'S1-NEW' or label == 'C1-LAUNCHED':
-                    muted.discard(obj)        # a new object with a re-used id
+                if label in ('S1-NEW', 'C1-LAUNCHED', 'S1-CLOSED-after-FAILED'):
+                    muted.discard(obj)        # a new object (re-used id, or the CLOSED that follows a FAILED for an id already dropped)
                 registered = obj not in muted
             want = exp[i] if registered else []
             if got != want:
